@@ -35,7 +35,8 @@ CLAIMS = {
         text="The index/cutoff kernels every forecaster goes through are verified: _set_fh of both horizon mixins (which horizon is "
              "stored / kept / rejected, for every horizon form), _SktimeForecaster.predict (forecast for exactly the requested horizon, "
              "NotFittedError before fit), _BaseWindowForecaster._predict_fixed_cutoff (one value per step, labels = cutoff + step or the "
-             "requested labels, increasing, for a cutoff anywhere in the remembered series), _update_y_X (cutoff = last label of the "
+             "requested labels, increasing, for a cutoff anywhere in the remembered series), _BaseWindowForecaster._predict (steps <= 0 go "
+             "to the in-sample path, steps > 0 to the fixed-cutoff path, results joined in horizon order), _update_y_X (cutoff = last label of the "
              "data passed to update), to_absolute / to_absolute_int (C02), PolynomialTrendForecaster fit/_predict labels.",
         note="'finite for finite data' is not decided (floating point / statistical fits); whole forecasters and their compositions, "
              "shift invariance end-to-end and statsmodels adapters are covered by the bounded native tier only (56k cases quick)",
@@ -115,8 +116,8 @@ CLAIMS = {
         design="6/C08"),
     "C09": dict(
         category="proof",
-        text="fit/_predict/update of TransformedTargetForecaster, EnsembleForecaster, MultiplexForecaster and StackingForecaster.fit "
-             "are verified with members, transformers and meta-regressor as abstract objects: which clone is fitted/updated with which "
+        text="fit/_predict/update of TransformedTargetForecaster, EnsembleForecaster, MultiplexForecaster and StackingForecaster.fit / "
+             "_predict are verified with members, transformers and meta-regressor as abstract objects: which clone is fitted/updated with which "
              "data (provenance by object identity through the ghost trace), order of inverse transforms, aggregate over member "
              "forecasts in member order, held-out window of stacking (members' first fit sees y without its last max(fh) points).",
         note="compositions of 1..3 members / 0..3 transformers (bound on the NUMBER of components only; each component is universally "
@@ -142,7 +143,10 @@ CLAIMS = {
         text="NaiveForecaster._predict_last_window is verified for all series, cutoffs inside the series (so also in-sample windows "
              "shorter than window_length_), window lengths, seasonal periods and horizons: last value / latest same-season value "
              "(or missing), mean of exactly the window, seasonal mean = aggregate over exactly the same-season observations of the "
-             "available window (statement on the cells handed to nanmean), drift through the window's end points. "
+             "available window (statement on the cells handed to nanmean), drift through the window's end points; NaiveForecaster.fit "
+             "(32 strategy / window / period cases: raises ValueError exactly for an invalid sp or window_length, window_length < sp, "
+             "drift with window_length 1, unknown strategy, window longer than the series; otherwise the fitted window is sp / "
+             "window_length / the whole series). "
              "PolynomialTrendForecaster.fit/_predict: degree/intercept options and the zero-based time axis (label - first label) "
              "in-sample and out-of-sample, labels = requested time points.",
         note="np.nanmean is an uninterpreted aggregator (no missing values assumed in the window); least-squares fit is sklearn's "
